@@ -354,6 +354,48 @@ Example C06_ex_eval :
         VArr [107]; VArr [214]; VArr [158]; VArr [163]].
 Proof. vm_compute. reflexivity. Qed.
 
+(* the hypotheses of C06_optimize_sem_partial_simple are satisfiable by a graph on which all
+   four passes act: a tuple getter, a foldable constant expression, a duplicated sub-expression
+   and, after these, dangling nodes *)
+Definition ex_h : list node :=
+  [inp t8; mkNode (ORandom t8) [] [] [] t8; mkNode OCreateTuple [0;1] [] [] (TTuple [t8;t8]);
+   mkNode (OTupleGet 1) [2] [] [] t8; c8 2; c8 3; mkNode OAdd [4;5] [] [] t8;
+   mkNode OAdd [3;6] [] [] t8; mkNode OAdd [3;6] [] [] t8; mkNode OAdd [7;8] [] [] t8].
+Definition infer_ex (o : op) (dts : list ty) : ty :=
+  match o with
+  | OInput t | ORandom t | OConstant t _ => t
+  | OCreateTuple => TTuple dts
+  | _ => t8
+  end.
+Example C06_ex_hyps :
+  infer_const infer_ex /\ typed_nodes infer_ex ex_h /\ const_typed ex_h /\ few_deps ex_h /\
+  simple_ops ex_h /\ meta_typed ex_h /\ nokey ex_h.
+Proof.
+  split; [intros t v; reflexivity|]. split.
+  { intros i nd E.
+    do 10 (destruct i as [|i]; [injection E as <-; eexists; split; [cbv; reflexivity|reflexivity]|]).
+    destruct i; discriminate. }
+  split.
+  { intros nd t v I. repeat (destruct I as [<-|I]; [cbn; intros H; try discriminate; now injection H as <- _|]). destruct I. }
+  split.
+  { intros nd I. repeat (destruct I as [<-|I]; [vm_compute; reflexivity|]). destruct I. }
+  split.
+  { intros nd I. repeat (destruct I as [<-|I]; [reflexivity|]). destruct I. }
+  split.
+  { intros i nd dts E D.
+    do 10 (destruct i as [|i]; [injection E as <-; cbv in D; injection D as <-; cbn;
+                                first [exact I | reflexivity | (eexists; split; reflexivity)]|]).
+    destruct i; discriminate. }
+  { intros nd I Ft. repeat (destruct I as [<-|I]; [try discriminate Ft; intros nd' deps E; unfold node_key; rewrite E; reflexivity|]). destruct I. }
+Qed.
+
+Example C06_ex_hyps_optimize :
+  optimize_graph ex_h (Some 9)
+  = Ok (mkPassOut [inp t8; mkNode (ORandom t8) [] [] [] t8; c8 5; mkNode OAdd [1;2] [] [] t8;
+                   mkNode OAdd [3;3] [] [] t8]
+                  [Some 0; Some 1; None; Some 1; None; None; Some 2; Some 3; Some 3; Some 4] (Some 4)).
+Proof. vm_compute. reflexivity. Qed.
+
 Print Assumptions C06_join_maps_length.
 Print Assumptions C06_eval_characterised.
 Print Assumptions C06_geval_characterised.
